@@ -77,8 +77,9 @@ def run_pairs(pid, tier, seed, ops, nconf, stride, only_nonuniform=False, l1_rec
         "universe": {"shapes": len(shapes), "class_representatives_as_A": sum(s["a"] for s in shapes),
                      "strata": {m["name"]: m["lines"] for m in metas[:-1]}, "pair_rows": metas[-1]["lines"]},
         "replayed_pairs": summ["pairs"], "configurations_per_pair": nconf, "pair_sampling_stride": stride,
-        "mismatching_calls": summ["mismatching_calls"], "distinct_mismatches": total_events,
-        "explained_by_L2": expl, "known_finding_hits": v.known_hits, "explain_cap_hit": capped,
+        "mismatching_calls": summ["mismatching_calls"], "distinct_mismatches": summ["distinct_mismatches"], "deviations_sampled_for_explanation": total_events,
+        "explained_by_L2": expl, "known_finding_hits": v.known_hits,
+        "explain_sampling": {"classes_of_deviation": summ.get("strata"), "witnesses_per_class": summ.get("per_stratum"), "some_deviations_not_explained": capped},
     }
     return v, cov, shapes
 
